@@ -14,6 +14,7 @@
 #include <QHostInfo>
 #include <QNetworkInterface>
 #include <QTimer>
+#include <QtEndian>
 #include <QUdpSocket>
 #include <QVariant>
 
@@ -90,6 +91,27 @@ static quint32 candidatePriority(const QXmppJingleCandidate &candidate, int loca
     return (1 << 24) * typePref +
         (1 << 8) * localPref +
         (256 - candidate.component());
+}
+
+// Checks whether a STUN packet carries a MESSAGE-INTEGRITY attribute
+// (QXmppStunMessage::decode() only verifies the attribute if it is present).
+static bool hasMessageIntegrity(const QByteArray &buffer)
+{
+    int pos = STUN_HEADER;
+    while (pos + 4 <= buffer.size()) {
+        const auto *ptr = reinterpret_cast<const uchar *>(buffer.constData() + pos);
+        const quint16 a_type = qFromBigEndian<quint16>(ptr);
+        const quint16 a_length = qFromBigEndian<quint16>(ptr + 2);
+        if (a_type == MessageIntegrity) {
+            return a_length == 20 && pos + 4 + a_length <= buffer.size();
+        }
+        if (a_type == Fingerprint) {
+            // decode() stops at the fingerprint
+            return false;
+        }
+        pos += 4 + 4 * ((a_length + 3) / 4);
+    }
+    return false;
 }
 
 static QString computeFoundation(QXmppJingleCandidate::Type type, const QString &protocol, const QHostAddress &baseAddress)
@@ -2143,6 +2165,12 @@ void QXmppIceComponent::handleDatagram(const QByteArray &buffer, const QHostAddr
     if (!stunTransaction) {
         messagePassword = (messageType & 0xFF00) ? d->config->remotePassword : d->config->localPassword;
         if (messagePassword.isEmpty()) {
+            return;
+        }
+
+        // connectivity checks must be authenticated with the short-term credentials
+        if (!hasMessageIntegrity(buffer)) {
+            warning(u"Received an ICE packet without message integrity"_s);
             return;
         }
     }
